@@ -17,6 +17,7 @@ package scipipe
 //@ axiom RA.parent.valid: forall s string :: validPath(s) ==> validPath(replaceAll(s, "../", "__parent__"))
 
 //@ extern strings.ReplaceAll(s, old, new) (res)
+//@   deterministic by-contract pure library function
 //@   ensures def: res == replaceAll(s, old, new)
 
 //@ define validPath(p string) bool = fullMatch(p, "[0-9A-Za-z/._-]+")
@@ -26,13 +27,14 @@ package scipipe
 // ---------------------------------------------------------------------------
 
 //@ func prependParentDirPath(path) (res)
-//@   props C13
-//@   requires nonempty: len(path) > 0
+//@   props C13 C15
+//@   deterministic structural
 //@   ensures abs: hasPrefix(path, "/") ==> res == path
 //@   ensures rel: !hasPrefix(path, "/") ==> res == "../" + path
 
 //@ func replaceParentDirsWithPlaceholder(pathSegment) (res)
 //@   props C01 C13
+//@   deterministic structural
 //@   ensures def: res == replaceAll(pathSegment, "../", "__parent__")
 
 //@ func replacePlaceholdersWithParentDirs(pathSegment) (res)
@@ -50,11 +52,12 @@ package scipipe
 
 //@ func (*FileIP).FifoPath(ip) (res)
 //@   props C13 C17
+//@   deterministic structural
 //@   ensures def: res == ip.path + ".fifo"
 
 //@ func (*FileIP).TempPath(ip) (res)
 //@   props C01 C13
-//@   requires nonempty: len(ip.path) > 0
+//@   deterministic structural
 //@   ensures def: res == tempPathOf(ip.path)
 //@   ensures confined[C01]: !hasPrefix(res, "/") && !contains(res, "../")
 //@   ensures identity[C13]: !hasPrefix(ip.path, "/") && !contains(ip.path, "../") ==> res == ip.path
@@ -125,8 +128,10 @@ package scipipe
 //@ extern (time.Time).Sub(t, u) (res)
 //@   ensures def: res == t - u
 //@ extern fmt.Sprintf(format, a) (res)
+//@   deterministic by-contract pure library function
 //@ extern (*log.Logger).Println(l, v)
 //@ extern (*log.Logger).Printf(l, format, v)
+//@   deterministic by-contract logging does not influence results
 //@ extern errors.New(text) (res)
 //@   ensures nonnil: res != nil
 //@ iface error.Error() (res)
@@ -153,9 +158,11 @@ package scipipe
 //@   noreturn
 //@ func Check(err)
 //@   props C09
+//@   deterministic by-contract returns only if err == nil, otherwise the program exits
 //@   ensures returns-only-if-nil: err == nil
 //@ func CheckWithMsg(err, errMsg)
 //@   props C09
+//@   deterministic by-contract returns only if err == nil, otherwise the program exits
 //@   ensures returns-only-if-nil: err == nil
 //@ func errWrap(err, msg) (res)
 //@   props C09
@@ -295,12 +302,10 @@ package scipipe
 
 //@ func (*FileIP).TempDir(ip) (res)
 //@   props C13
-//@   requires nonempty: len(ip.path) > 0
 //@   ensures def: res == dirOf(tempPathOf(ip.path))
 
 //@ func (*FileIP).createDirs(ip, baseDir)
 //@   props C13 C17
-//@   requires nonempty: len(ip.path) > 0
 //@   modifies effMkdir, fsEpoch
 //@   ensures grows: forall p string :: old(effMkdir)[p] ==> effMkdir[p]
 //@   ensures only-dirs: effCreated == old(effCreated)
@@ -309,7 +314,6 @@ package scipipe
 
 //@ func (*FileIP).WriteAuditLogToFile(ip)
 //@   props C10 C01
-//@   requires nonempty: len(ip.path) > 0
 //@   modifies ip.auditInfo, locked, effCreated, effMkdir, fsEpoch
 //@   ensures written: effCreated == setAdd(old(effCreated), ip.path + ".audit.json")
 //@   ensures record-kept: old(ip.auditInfo) != nil ==> ip.auditInfo == old(ip.auditInfo)
@@ -347,6 +351,7 @@ package scipipe
 //@ define newRename(a string, b string) bool = effRenamed[a][b] && !old(effRenamed)[a][b]
 
 //@ extern strings.Replace(s, old, new, n) (res)
+//@   deterministic by-contract pure library function
 //@   ensures first: n == 1 ==> res == replaceFirst(s, old, new)
 //@   ensures all: n < 0 ==> res == replaceAll(s, old, new)
 //@ iface fs.FileInfo.IsDir() (res)
@@ -472,7 +477,6 @@ package scipipe
 
 //@ func (*FileIP).Write(ip, dat)
 //@   props C01
-//@   requires nonempty: len(ip.path) > 0
 //@   modifies effCreated, effMkdir, fsEpoch
 //@   ensures creates-temp-path: effCreated == setAdd(old(effCreated), tempPathOf(ip.path))
 //@   ensures not-final: forall p string :: effCreated[p] && !old(effCreated)[p] ==> p != ip.path
@@ -511,6 +515,7 @@ package scipipe
 //@   ensures def: res == hexOf(src)
 //@ extern strings.Join(elems, sep) (res)
 //@   deterministic by-contract pure library function
+//@   ensures def: res == joinStr(elems, sep)
 //@ extern path/filepath.Base(path) (res)
 //@   deterministic by-contract pure library function
 //@   ensures def: res == baseOf(path)
@@ -576,3 +581,117 @@ package scipipe
 //@   props C09 C14 C15
 //@   deterministic structural
 //@   ensures returns-only-if-present: tagName in t.Tags && res == t.Tags[tagName]
+
+// ---------------------------------------------------------------------------
+// C15: path modifiers (common.go applyPathModifiers)
+// ---------------------------------------------------------------------------
+
+//@ ghost func reGroup(pat string, s string, i int) string
+//@ ghost func afterLastSlash(x string) string
+//@ ghost func beforeLastSlash(x string) string
+
+// The documented modifiers (docs/writing_workflows.md): basename, dirname, %SUFFIX, s/SEARCH/REPLACE/
+//@ ghost func isSubstMod(m string) bool
+//@ ghost func isTrimMod(m string) bool
+//@ ghost func substA(m string) string
+//@ ghost func substB(m string) string
+//@ axiom isSubstMod.def: forall m string :: isSubstMod(m) <==> fullMatch(m, "s/[^/%\n]+/[^/%\n]*/")
+//@ axiom isTrimMod.def: forall m string :: isTrimMod(m) <==> (fullMatch(m, "%[^\n]*") && !matches(m, "s\\/([^\\/]+)\\/([^\\/]*)\\/"))
+// How the code's own tests (substPtn.MatchString, trimEndPtn.MatchString, == "basename", == "dirname") come out for each kind
+// of documented modifier: proved from the two definitions above (pure regular-expression reasoning).
+//@ lemma kinds.subst.matches[C15]: forall m string :: isSubstMod(m) ==> matches(m, "s\\/([^\\/]+)\\/([^\\/]*)\\/")
+//@ lemma kinds.subst.notrim[C15]: forall m string :: isSubstMod(m) ==> !matches(m, "%(.*)")
+//@ lemma kinds.subst.notword[C15]: forall m string :: isSubstMod(m) ==> m != "basename" && m != "dirname"
+//@ lemma kinds.subst.noprefix[C15]: forall m string :: isSubstMod(m) ==> !hasPrefix(m, "%")
+//@ lemma kinds.trim.matches[C15]: forall m string :: isTrimMod(m) ==> matches(m, "%(.*)")
+//@ lemma kinds.trim.nosubst[C15]: forall m string :: isTrimMod(m) ==> !matches(m, "s\\/([^\\/]+)\\/([^\\/]*)\\/")
+//@ lemma kinds.trim.notword[C15]: forall m string :: isTrimMod(m) ==> m != "basename" && m != "dirname"
+//@ lemma kinds.trim.prefix[C15]: forall m string :: isTrimMod(m) ==> hasPrefix(m, "%")
+//@ lemma kinds.trim.nonewline[C15]: forall m string :: isTrimMod(m) ==> !contains(m, "\n")
+//@ lemma kinds.words[C15]: !matches("basename", "s\\/([^\\/]+)\\/([^\\/]*)\\/") && !matches("basename", "%(.*)") && !matches("dirname", "s\\/([^\\/]+)\\/([^\\/]*)\\/") && !matches("dirname", "%(.*)")
+// Assumed facts about Go's regexp for the four pattern literals of applyPathModifiers (validated by differential tests).
+//@ axiom re.subst.groups: forall m string :: isSubstMod(m) ==> reGroup("s\\/([^\\/]+)\\/([^\\/]*)\\/", m, 1) == substA(m) && reGroup("s\\/([^\\/]+)\\/([^\\/]*)\\/", m, 2) == substB(m)
+//@ axiom re.trim.group: forall m string :: isTrimMod(m) ==> reGroup("%(.*)", m, 1) == substr(m, 1, len(m) - 1)
+//@ axiom re.basename: forall x string :: !contains(x, "\n") ==> reReplaceAll(".*\\/", x, "") == afterLastSlash(x)
+//@ axiom re.dirname: forall x string :: !contains(x, "\n") ==> reReplaceAll("\\/[^\\/]*$", x, "") == beforeLastSlash(x)
+// Meaning of the two spec functions (documented semantics of basename / dirname).
+//@ axiom afterLastSlash.split: forall d string, f string :: !contains(f, "/") ==> afterLastSlash(d + "/" + f) == f
+//@ axiom afterLastSlash.none: forall x string :: !contains(x, "/") ==> afterLastSlash(x) == x
+//@ axiom beforeLastSlash.split: forall d string, f string :: !contains(f, "/") ==> beforeLastSlash(d + "/" + f) == d
+//@ axiom beforeLastSlash.none: forall x string :: !contains(x, "/") ==> beforeLastSlash(x) == x
+//@ axiom nonewline.stable.after: forall x string :: !contains(x, "\n") ==> !contains(afterLastSlash(x), "\n")
+//@ axiom nonewline.stable.before: forall x string :: !contains(x, "\n") ==> !contains(beforeLastSlash(x), "\n")
+
+//@ extern (*regexp.Regexp).MatchString(re, s) (res)
+//@   deterministic by-contract pure library function
+//@ extern (*regexp.Regexp).FindStringSubmatch(re, s) (res)
+//@   deterministic by-contract pure library function
+//@   ensures groups: forall i int :: res[i] == reGroup(regexLit(re), s, i)
+
+//@ axiom subst.decomp: forall m string :: isSubstMod(m) ==> m == "s/" + substA(m) + "/" + substB(m) + "/" && len(substA(m)) > 0 && !contains(substA(m), "/") && !contains(substB(m), "/") && !contains(substA(m), "\n") && !contains(substB(m), "\n")
+//@ define docMod(m string) bool = m == "basename" || m == "dirname" || isTrimMod(m) || isSubstMod(m)
+//@ define trimSuffix(x string, s string) string = ite(len(x) > len(s) && hasSuffix(x, s), substr(x, 0, len(x) - len(s)), x)
+//@ define modstep(x string, m string) string = ite(m == "basename", afterLastSlash(x), ite(m == "dirname", beforeLastSlash(x), ite(hasPrefix(m, "%"), trimSuffix(x, substr(m, 1, len(m) - 1)), ite(isSubstMod(m), replaceFirst(x, substA(m), substB(m)), x))))
+
+//@ ghost func applyMods(path string, modifiers seq[string]) string
+//@ func applyPathModifiers(path, modifiers) (res)
+//@   props C15
+//@   deterministic structural
+//@   assumes functional: res == applyMods(path, modifiers)
+//@   ensures no-modifiers: len(modifiers) == 0 ==> res == path
+//@   loop 0 invariant range: 0 <= $i && $i <= len(modifiers)
+//@   loop 0 invariant start: $i == 0 ==> replacement == path
+//@   loop 0 step one-at-a-time: $i == prev($i) + 1
+//@   loop 0 step left-to-right: docMod(modifiers[prev($i)]) && !contains(prev(replacement), "\n") ==> replacement == modstep(prev(replacement), modifiers[prev($i)])
+
+// ---------------------------------------------------------------------------
+// C15 / C13 / C17 / C18 / C09: placeholder expansion (task.go formatCommand)
+// ---------------------------------------------------------------------------
+
+//@ ghost func splitOf(s string, sep string) seq[string]
+//@ ghost func joinStr(elems seq[string], sep string) string
+//@ ghost func reFindAll(pat string, s string) seq[seq[string]]
+
+//@ extern regexp.Compile(expr) (res, err)
+//@   deterministic by-contract pure function of the pattern
+//@   ensures lit: err == nil ==> res != nil && regexLit(res) == expr
+//@ extern (*regexp.Regexp).FindAllStringSubmatch(re, s, n) (res)
+//@   deterministic by-contract pure library function
+//@   ensures def: n < 0 ==> res == reFindAll(regexLit(re), s)
+//@ extern strings.Split(s, sep) (res)
+//@   deterministic by-contract pure library function
+//@   ensures def: res == splitOf(s, sep)
+//@   ensures nonempty: len(res) >= 1
+
+//@ func getShellCommandPlaceHolderRegex() (res)
+//@   props C15
+//@   deterministic structural
+//@   ensures pattern: res != nil && regexLit(res) == "{(o|os|i|is|p|t):([^{}]+)}"
+
+//@ func strInSlice(str, slice) (res)
+//@   props C15
+//@   deterministic structural
+//@   ensures def: res <==> hasMod(slice, str)
+//@   loop 0 invariant range: 0 <= $i && $i <= len(slice)
+//@   loop 0 invariant none-yet: forall j int :: 0 <= j && j < $i ==> slice[j] != str
+
+//@ define hasMod(ms seq[string], s string) bool = exists j int :: 0 <= j && j < len(ms) && ms[j] == s
+//@ define prependOf(x string) string = ite(hasPrefix(x, "/"), x, "../" + x)
+//@ define joinedPaths(P seq[string], ips seq[*FileIP], mods seq[string]) bool = len(P) == len(ips) && (forall j int :: 0 <= j && j < len(ips) ==> P[j] == prependOf(applyMods(ips[j].path, mods)))
+
+//@ func (*Task).formatCommand(t, cmd, portInfos, inIPs, subStreamIPs, outIPs, params, tags, prepend) (res)
+//@   props C15
+//@   deterministic structural
+//@   atcall strings.Replace all-occurrences[C15]: $arg3 < 0 && $arg1 == placeHolder.match && $arg2 == replacement
+//@   atcall strings.Replace known-type[C09,C15]: portInfo.portType == "o" || portInfo.portType == "os" || portInfo.portType == "i" || portInfo.portType == "p" || portInfo.portType == "t"
+//@   atcall strings.Replace case-o[C01,C13,C15]: portInfo.portType == "o" ==> outIPs[portName] != nil && replacement == replaceAll(applyMods(tempPathOf(outIPs[portName].path), placeHolder.modifiers), "../", "__parent__")
+//@   atcall strings.Replace case-os[C15,C17]: portInfo.portType == "os" ==> outIPs[portName] != nil && replacement == ite(hasMod(placeHolder.modifiers, "basename"), applyMods(outIPs[portName].path + ".fifo", placeHolder.modifiers), prependOf(applyMods(outIPs[portName].path + ".fifo", placeHolder.modifiers)))
+//@   atcall strings.Replace case-i[C13,C15,C17]: portInfo.portType == "i" && !(portInfo.join && portInfo.joinSep != "") ==> inIPs[portName] != nil && inIPs[portName].path != "" && replacement == ite(hasMod(placeHolder.modifiers, "basename"), applyMods(ite(inIPs[portName].doStream, inIPs[portName].path + ".fifo", inIPs[portName].path), placeHolder.modifiers), prependOf(applyMods(ite(inIPs[portName].doStream, inIPs[portName].path + ".fifo", inIPs[portName].path), placeHolder.modifiers)))
+//@   atcall strings.Replace case-i-join[C15,C18]: portInfo.portType == "i" && portInfo.join && portInfo.joinSep != "" ==> inIPs[portName] != nil && exists P seq[string] :: joinedPaths(P, subStreamIPs[portName], placeHolder.modifiers) && replacement == joinStr(P, portInfo.joinSep)
+//@   atcall strings.Replace case-p[C09,C15]: portInfo.portType == "p" ==> params[portName] != "" && replacement == applyMods(params[portName], placeHolder.modifiers)
+//@   atcall strings.Replace case-t[C09,C15]: portInfo.portType == "t" ==> tags[portName] != "" && replacement == applyMods(tags[portName], placeHolder.modifiers)
+//@   loop 0 invariant range: 0 <= $i && $i <= len(placeHolderMatches) && len(placeHolderInfos) == $i
+//@   loop 0 invariant parse: forall j int :: 0 <= j && j < $i ==> allocated(placeHolderInfos[j]) && placeHolderInfos[j].match == placeHolderMatches[j][0] && placeHolderInfos[j].portName == splitOf(placeHolderMatches[j][2], "|")[0] && len(placeHolderInfos[j].modifiers) == len(splitOf(placeHolderMatches[j][2], "|")) - 1 && (forall k int :: 0 <= k && k < len(placeHolderInfos[j].modifiers) ==> placeHolderInfos[j].modifiers[k] == splitOf(placeHolderMatches[j][2], "|")[k + 1])
+//@   loop 1 invariant parsed: forall j int :: 0 <= j && j < len(placeHolderInfos) ==> placeHolderInfos[j] != nil && placeHolderInfos[j].match == placeHolderMatches[j][0] && placeHolderInfos[j].portName == splitOf(placeHolderMatches[j][2], "|")[0] && (forall k int :: 0 <= k && k < len(placeHolderInfos[j].modifiers) ==> placeHolderInfos[j].modifiers[k] == splitOf(placeHolderMatches[j][2], "|")[k + 1])
+//@   loop 2 invariant range: 0 <= $i && $i <= len(subStreamIPs[portName]) && len(paths) == $i
+//@   loop 2 invariant joined: forall j int :: 0 <= j && j < $i ==> paths[j] == prependOf(applyMods(subStreamIPs[portName][j].path, placeHolder.modifiers))
